@@ -149,7 +149,9 @@ func runC33(r *simkit.Run) {
 	defer os.RemoveAll(sb.root)
 	base := sb.outside()
 	cfgText := fmt.Sprintf("keyLength=%d", len(key))
-	r.Logf("config %s storage=%s", cfgText, sb.storage)
+	// the sandbox has a random name: keep it out of the event log
+	san := func(x string) string { return strings.ReplaceAll(x, sb.root, "<sandbox>") }
+	r.Logf("config %s storage=%s", cfgText, san(sb.storage))
 	finished := false
 	compared := 0
 	r.Go("control", func() {
@@ -211,7 +213,7 @@ func runC33(r *simkit.Run) {
 					return
 				}
 				r.Sched("op", fmt.Sprintf("sync/%v", serr == nil))
-				r.Logf("sync -> %d namespaces, %s", len(synced), errTextW3(serr))
+				r.Logf("sync -> %d namespaces, %s", len(synced), san(errTextW3(serr)))
 				if serr != nil {
 					r.Failf("C33-saved-namespace-cannot-be-loaded", "SyncNamespaces failed: %v", serr)
 					return
@@ -313,7 +315,7 @@ func runC33(r *simkit.Run) {
 					default:
 						oerr = local.Clean(p)
 					}
-					r.Logf("local op %d on %q -> %s (%d bytes, %d entries)", op, head1W3(p), errTextW3(oerr), len(data), len(list))
+					r.Logf("local op %d on %q -> %s (%d bytes, %d entries)", op, san(head1W3(p)), san(errTextW3(oerr)), len(data), len(list))
 					if strings.Contains(string(data), "CANARY") {
 						r.Failf("C33-read-outside-storage", "Read(%q) returned the content of a file outside the storage directory: %q", p, data)
 					}
